@@ -945,6 +945,11 @@ class Segment(Geodesic):
         base_ring = utils.guess_literal_ring(end_data)
         dim = end_data.shape[-1]
 
+        # the parametrization below degenerates if the difference of
+        # the two representatives is lightlike, so use representatives
+        # with equal time coordinates (harmless projectively)
+        end_data = end_data / end_data[..., :1]
+
         products = end_data @ minkowski(
             dim, base_ring=base_ring
         ) @ end_data.swapaxes(-1, -2)
